@@ -65,6 +65,9 @@ class Cluster(object):
         self.started = set(self.initial)
         self.seen_mem = collections.defaultdict(set)    # node -> membership entry (idx, term) already seen in its log
         self.isolated = set()
+        self.last_commit = {}
+        self.prev_members = {}
+        self.prev_last = {}
         self.committed_mem = {}   # index -> (kind, node): membership commands as applied (= committed) by any node
         self.max_applied = 1      # highest index some node has applied
         for i in self.initial:
@@ -177,6 +180,39 @@ class Cluster(object):
                                                        % (what, i, e, earlier, o.raftLastApplied)})
             for e in cur:
                 self.seen_mem[i].add((e[0], e[1]))
+            # M6: a leader that has just advanced its commit index has the entry stored by a majority of ITS member
+            # set (a node that was added but has not acknowledged anything holds nothing and counts for nothing)
+            c_now = o.raftCommitIndex
+            if o._isLeader() and c_now > self.last_commit.get(i, 0):
+                lg = sim.log_of(i)
+                ent = [x for x in lg if x[0] == c_now]
+                if ent:
+                    # member sets the leader had at some moment since the previous check (the step may contain several
+                    # ticks: a change accepted after the commit advance must not be held against it)
+                    cfgs = []
+                    m = set(self.prev_members.get(i, self.members(i)))
+                    cfgs.append(sorted(m | {i}))
+                    for (idx, term, k, nd) in cur:
+                        if idx > self.prev_last.get(i, 0):
+                            m = step_set(m, i, k, nd)
+                            cfgs.append(sorted(m | {i}))
+                    cfgs.append(sorted(self.members(i) | {i}))
+                    everybody = sorted(set(x for cfg in cfgs for x in cfg))
+                    holders = []
+                    for j in everybody:
+                        if j not in sim.objs:
+                            continue
+                        lj = sim.log_of(j)
+                        if lj[0][0] > c_now or any(x[0] == c_now and x[1] == ent[0][1] for x in lj):
+                            holders.append(j)
+                    self.cov["commit-advance-checked"] += 1
+                    if not any(2 * len([h for h in holders if h in cfg]) > len(cfg) for cfg in cfgs):
+                        self.viols.append({"signature": "membership:commit-without-majority-of-configuration",
+                                           "what": "after %s: leader %s advanced its commit index to %d (term %d); its member sets since the previous "
+                                                   "step were %s, but only %s store that entry" % (what, i, c_now, ent[0][1], cfgs, holders)})
+            self.last_commit[i] = c_now
+            self.prev_members[i] = self.members(i)
+            self.prev_last[i] = sim.last_index(i)
 
     def agreement(self):
         """at quiescence: the members that are up to date hold the same member set, the one defined by the committed
@@ -445,6 +481,41 @@ def directed_overlap(ctx, rng, kind="add"):
     return c, v, None
 
 
+def directed_add_with_backlog(ctx, rng):
+    """`add` accepted while the leader holds uncommitted entries and cannot reach the other voter: the new, empty node
+    must not count for those entries."""
+    c = Cluster(ctx, rng, 3)
+    sim = c.sim
+    L = sim.elect()
+    sim.run(4)
+    if L is None:
+        return c, [], "no leader"
+    others = [i for i in sim.voters if i != L]
+    sim.submit(L, "x0")
+    sim.run(4)
+    c.check("x0")
+    # the leader applies its no-op and x0, then loses both followers silently; three commands stay uncommitted
+    for j in others:
+        sim.cut(L, j)
+    for k in range(3):
+        sim.submit(L, "u%d" % k)
+    sim.tick(L, 0.0625)
+    c.request(L, "add", "e")
+    for _ in range(6):
+        sim.tick(L, 0.0625)
+        c.check("add e with a backlog")
+    c.cov["add-with-backlog"] += 1
+    v = c.viols + monitors.callbacks_contract(sim)
+    acked = [cb for cb in sim.callbacks if cb[3] == 0 and cb[0] == L]
+    subs = {ev[4]: ev[2] for ev in sim.trace if ev[0] == "submit"}
+    for (_, cid, res, err) in acked:
+        if str(subs.get(cid, "")).startswith("u"):
+            v.append({"signature": "membership:commit-without-majority-of-configuration",
+                      "what": "leader %s cut off from both followers reported SUCCESS for %r after accepting `add e` (e never started)"
+                              % (L, subs.get(cid))})
+    return c, v, None
+
+
 def remove_self_check(ctx):
     """M4: admin path `_removeNodeFromCluster([own address])`"""
     from harness.sim import load_pysyncobj
@@ -478,6 +549,12 @@ def run(ctx):
             for x in v:
                 x.setdefault("replay", {"directed": "snapshot", "grow": g, "seed": ctx.seed, "trace": c.sim.trace[-40:]})
             viols += v
+    c, v, note = directed_add_with_backlog(ctx, rng)
+    n += 1
+    cov.update(c.cov)
+    for x in v:
+        x.setdefault("replay", {"directed": "add_with_backlog", "seed": ctx.seed, "trace": c.sim.trace[-30:]})
+    viols += v
     for kind in ("add", "rem"):
         c, v, note = directed_overlap(ctx, rng, kind)
         n += 1
@@ -508,7 +585,7 @@ def run(ctx):
            "samples": [sample], "disagreements": [], "violations": out[:4], "wall_s": round(time.time() - t0, 2)}
     need = ["request:add", "request:rem", "callback:6", "callback:0", "back-to-back", "isolate-leader", "start-node",
             "isolate-follower", "compacted-log", "fold-base:committed-prefix", "agreement:compared",
-            "caught-up-by-snapshot", "overlap-resend"]
+            "caught-up-by-snapshot", "overlap-resend", "add-with-backlog", "commit-advance-checked"]
     missing = [k for k in need if cov[k] == 0]
     if missing and not out:
         res["inconclusive"] = "coverage floor missed: " + ", ".join(missing)
